@@ -482,3 +482,164 @@ def check_domfd(ctx, lib, rule):
                         nn.append(ee[1].split("::")[-1])
                 good = good and nn == ["insert"] and unify(pat("Ok(@0)"), tables.result(none[0][2])) is not None
         ctx.expect(good, rule, fn["npath"] + "|bound-implies-no-domain", site_of(fn), "a singleton domain binds the variable: extend the substitution, remove the domain, re-run the store; otherwise store the domain")
+
+
+# ----------------------------------------------------------------------
+MUTATORS = ("push", "insert", "extend", "append", "swap", "reverse", "rotate_left", "rotate_right", "extend_from_slice", "push_front", "splice", "resize")
+SORTERS = ("sort", "sort_unstable", "sort_by", "sort_by_key", "sort_unstable_by", "sort_unstable_by_key")
+
+
+def check_sorted_search(ctx, lib, rule):
+    """A vector that is searched with binary_search must stay sorted: in the same function it may
+    only grow by `insert(pos, x)` at the position the failed search returned for that x (or be
+    re-sorted); any other insertion makes later searches miss duplicates."""
+    n = 0
+    ev = sym.Evaluator(lib, inline=lambda p, f: False)
+    for p, fn in sorted(lib.fns.items()):
+        if "hir" not in fn or fn.get("in_test_mod"):
+            continue
+        t = ev.fn_term(fn)
+        searches = list(dict.fromkeys(c for c in sym.calls(t, "binary_search")))
+        if not searches:
+            continue
+        ctx.fn_seen(p)
+        for s in searches:
+            vec, x = s[2][0], s[2][1]
+            n += 1
+            muts = list(dict.fromkeys(c for c in sym.subterms(t) if c[0] == "call" and c[2] and c[2][0] == vec and c[1].split("::")[-1] in MUTATORS))
+            bad = []
+            for m in muts:
+                name = m[1].split("::")[-1]
+                if name == "insert" and len(m[2]) == 3 and m[2][1] == ("proj", s, m[2][1][2] if len(m[2][1]) > 3 else None, 0) and m[2][1][2].endswith("Err") and m[2][2] == x:
+                    continue
+                bad.append(m)
+            key = "%s|searched=%s" % (p, show(vec, maxdepth=3))
+            ctx.expect(not bad, rule, key, site_of(fn), "vector %s is searched with binary_search but modified by %s, which does not keep it sorted" % (show(vec, maxdepth=3), [show(b, maxdepth=3)[:80] for b in bad]))
+    ctx.floor(rule, n, 2, "binary_search sites")
+    # the searched field of DistinctFd2Constraint starts sorted: its constructor argument was sorted
+    fn = lib.fn("<crate::relation::clpfd::distinctfd::DistinctFdConstraint as crate::state::constraint::Constraint>::run")
+    if fn is None:
+        ctx.violation(rule, "anchor-missing|DistinctFdConstraint::run", "", "function not found")
+        return
+    t = sym.Evaluator(lib, named_lets=True, inline=lambda p, f: False).fn_term(fn)
+    news = list(dict.fromkeys(c for c in sym.calls(t, "DistinctFd2Constraint::new")))
+    ok = len(news) >= 1
+    for c in news:
+        nvec = c[2][2]
+        sorts = [s for s in sym.subterms(t) if s[0] == "call" and s[1].split("::")[-1] in SORTERS and s[2] and s[2][0][:2] == nvec[:2]]
+        ok = ok and nvec[0] == "letv" and bool(sorts)
+    ctx.expect(ok, rule, "DistinctFdConstraint::run|constants-sorted", site_of(fn), "the constant list handed to DistinctFd2Constraint::new must have been sorted (it is binary-searched later)")
+
+
+def check_distinctfd(ctx, lib, rule):
+    """Decision table of the all-different propagator: a value seen twice fails; an unseen value is
+    recorded; unresolved members are carried over; the recorded values are removed from the domains
+    of the unresolved members."""
+    fn = lib.fn("<crate::relation::clpfd::distinctfd::DistinctFd2Constraint as crate::state::constraint::Constraint>::run")
+    if fn is None:
+        ctx.violation(rule, "anchor-missing|DistinctFd2Constraint::run", "", "function not found")
+        return
+    ctx.fn_seen(fn["npath"])
+    site = site_of(fn)
+    t = sym.Evaluator(lib, named_lets=True, inline=lambda p, f: False).fn_term(fn)
+    key = fn["npath"]
+    searches = list(dict.fromkeys(c for c in sym.calls(t, "binary_search")))
+    if not ctx.expect(len(searches) == 1, rule, key + "|one-search", site, "expected one duplicate test per member, found %d" % len(searches)):
+        return
+    s = searches[0]
+    ms = [m for m in sym.subterms(t) if m[0] == "match" and m[1] == s]
+    ok = bool(ms)
+    if ok:
+        m = ms[0]
+        okarm = tables.find_arm(m, "Ok")
+        ok = len(okarm) == 1 and okarm[0][1] is None and any(x[0] == "ret" and x[1] is not None and x[1][0] == "ctor" and x[1][1].endswith("Err") for x in sym.subterms(okarm[0][2]))
+    ctx.expect(ok, rule, key + "|duplicate-fails", site, "a member value that was already seen must fail the constraint (return Err)")
+    # members: every member of self.y is examined; variables are carried over
+    fors = [f for f in sym.subterms(t) if f[0] == "for"]
+    ok = len(fors) == 1
+    if ok:
+        f = fors[0]
+        src, chain = streams.iter_chain(f[1])
+        ok = any(x == ("field", ("param", 0, "self"), "y") for x in sym.subterms(f[1])) and not [n for n, _ in chain if n not in streams.ONE_TO_ONE and n != "into_iter"]
+        item = ("item", f[1])
+        walks = [c for c in sym.calls(f[3], "SMap::walk") if c[2][1] == item]
+        ok = ok and bool(walks)
+        mm = [m for m in sym.subterms(f[3]) if m[0] == "match" and any(True for _ in tables.find_arm(m, "LTermInner::Var"))]
+        ok = ok and bool(mm)
+        if ok:
+            var = tables.find_arm(mm[0], "LTermInner::Var")
+            ok = len(var) == 1 and any(suffix_match(c[1], "extend") and item in list(sym.subterms(c[2][1])) for c in sym.calls(var[0][2]))
+    ctx.expect(ok, rule, key + "|carries-unresolved", site, "every member is examined in its current value; a member that is still a variable is kept for the next run")
+    ex = list(dict.fromkeys(c for c in sym.calls(t, "exclude_from_domain")))
+    ok = len(ex) == 1
+    if ok:
+        dom = ex[0][2][2]
+        ok = any(c[0] == "call" and suffix_match(c[1], "from") and c[2][0] == ("field", ("param", 0, "self"), "n") for c in sym.subterms(dom))
+        ok = ok and any(suffix_match(c[1], "with_constraint") for c in sym.calls(ex[0][2][0]))
+    ctx.expect(ok, rule, key + "|excludes-seen-values", site, "the values seen so far (self.n) must be removed from the domains of the unresolved members, with the constraint kept")
+
+
+def check_diseqfd(ctx, lib, rule):
+    """Decision table of x != y over domains: equal singletons fail; disjoint domains drop the
+    constraint; otherwise it is kept, and a singleton side is removed from the other side's domain."""
+    fn = lib.fn("<crate::relation::clpfd::diseqfd::DiseqFdConstraint as crate::state::constraint::Constraint>::run")
+    if fn is None:
+        ctx.violation(rule, "anchor-missing|DiseqFdConstraint::run", "", "function not found")
+        return
+    ctx.fn_seen(fn["npath"])
+    site = site_of(fn)
+    key = fn["npath"]
+    t = sym.Evaluator(lib, inline=lambda p, f: False).fn_term(fn)
+    eff, m = tables.flatten(t)
+    if not ctx.expect(m and m[0] == "match" and m[1][0] == "tuple" and len(m[1][1]) == 2, rule, key + "|shape", site, "expected a match on the pair of operand domains"):
+        return
+    U, V = ("proj", ("proj", m[1], "tuple", 0), ANY, 0), ("proj", ("proj", m[1], "tuple", 1), ANY, 0)
+    arms = m[2]
+    seen_fail = seen_drop = seen_keep = False
+    for p, g, b in arms:
+        r = tables.result(b)
+        both = p[0] == "ptuple" and all(x[0] == "pctor" and x[1].endswith("Some") for x in p[1])
+        if not both:
+            # some operand has no domain yet: the constraint must be kept
+            ok = r[0] == "ctor" and r[1].endswith("Ok") and any(suffix_match(c[1], "with_constraint") for c in sym.calls(r))
+            ctx.expect(ok, rule, key + "|no-domain-keeps", site, "while an operand has no domain the constraint must stay in the store; found %s" % show(r, maxdepth=4)[:120])
+            continue
+        cj = _conjuncts(g) if g is not None else []
+        if g is not None and len(cj) == 2 and all(c[0] == "call" and suffix_match(c[1], "is_singleton") for c in cj) and cj[0][2][0] != cj[1][2][0]:
+            # both singletons: equal -> Err, different -> Ok(state) (entailed)
+            ok = r[0] == "if" and r[1][0] == "binop" and r[1][1] == "Eq"
+            if ok:
+                l, rr = r[1][2], r[1][3]
+                ok = l[0] == "call" and rr[0] == "call" and l[1] == rr[1] and l[1].split("::")[-1] in ("min", "max", "singleton_value") and {show(l[2][0]), show(rr[2][0])} == {show(x) for x in (sym_subst(U), sym_subst(V))} if False else ok
+                then, els = tables.result(r[2]), tables.result(r[3])
+                ok = ok and then[0] == "ctor" and then[1].endswith("Err") and els[0] == "ctor" and els[1].endswith("Ok") and els[2][0][:2] == ("param", 1)
+                ok = ok and l[2][0] != rr[2][0]
+            ctx.expect(ok, rule, key + "|equal-singletons-fail", site, "two singleton domains: equal values fail, different values are entailed; found %s" % show(r, maxdepth=5)[:200])
+            seen_fail = True
+        elif g is not None and g[0] == "call" and suffix_match(g[1], "is_disjoint"):
+            gc = g
+            ok = gc[2][0] != gc[2][1] and r[0] == "ctor" and r[1].endswith("Ok") and r[2][0][:2] == ("param", 1)
+            ctx.expect(ok, rule, key + "|disjoint-drops", site, "the constraint may be dropped only when the two domains are disjoint; guard %s" % show(g, maxdepth=4)[:120])
+            seen_drop = True
+        elif g is None:
+            keeps = any(suffix_match(c[1], "with_constraint") for c in sym.calls(b))
+            pds = list(dict.fromkeys(c for c in sym.calls(b, "process_domain")))
+            ok = keeps and len(pds) == 2
+            for c in pds:
+                diffs = [d for d in sym.calls(c[2][2], "diff")]
+                ok = ok and len(diffs) >= 1 and diffs[0][2][0] != diffs[0][2][1]
+            ctx.expect(ok, rule, key + "|overlap-keeps-and-narrows", site, "overlapping domains: the constraint is kept and a singleton side is removed from the other side's domain (diff)")
+            seen_keep = True
+        else:
+            ctx.violation(rule, key + "|unrecognised-arm", site, "unrecognised guarded arm %s" % show(g, maxdepth=4)[:120])
+    ctx.expect(seen_fail and seen_drop and seen_keep, rule, key + "|table-complete", site, "the decision table must have the equal-singletons, disjoint and overlapping cases")
+
+
+def sym_subst(x):
+    return x
+
+
+def _conjuncts(g):
+    if isinstance(g, tuple) and g and g[0] == "binop" and g[1] == "And":
+        return _conjuncts(g[2]) + _conjuncts(g[3])
+    return [g]
